@@ -95,6 +95,11 @@ func unitsAll(prop string, mon Monitor) func(tier string) []runner.Unit {
 		// request of apis/client) rides on the open session request
 		faultBases = append(faultBases,
 			Params{CW: []int{600, 900}, SW: []int{700}, RB: 4096, CTP: "nil", STP: "nil", NSess: 1, MTU: 1400, Latency: 5 * time.Millisecond, Raw: true})
+		// low entropy at both ends: the server's first segments leave before the client's first
+		// low-entropy data has arrived and are retransmitted after it
+		faultBases = append(faultBases,
+			Params{CW: []int{1500}, SW: []int{700, 900}, RB: 4096, CTP: "le40-R1", STP: "le48-R15", NSess: 1, MTU: 1400, Latency: 5 * time.Millisecond},
+			Params{CW: []int{300}, SW: []int{40}, RB: 4096, CTP: "le32", STP: "le32", NSess: 1, MTU: 1400, Latency: 5 * time.Millisecond, Raw: true})
 		for bi, base := range faultBases {
 			base := base
 			base.Prop, base.UDP, base.Faults, base.Seed = prop, true, true, int64(100+bi)
@@ -134,6 +139,22 @@ func unitsAll(prop string, mon Monitor) func(tier string) []runner.Unit {
 						}
 					}
 				}
+			}
+		}})
+		// stalled readers: the receiving application does not read while the peer writes more
+		// segments than the session's receive structures hold (queue 4096 + buffer): the window
+		// closes, what is in flight is dropped and retransmitted; then the reader resumes
+		us = append(us, runner.Unit{Name: "stalled-reader", Cost: 8, Run: func(u *runner.U) {
+			for i, base := range []Params{
+				{CW: many(4500, 16), SW: []int{3}, RB: 4096, ReadDelay: 4 * time.Second},
+				{CW: []int{7}, SW: many(4500, 9), RB: 65536, ReadDelay: 12 * time.Second},
+				{CW: many(4200, 1300), SW: []int{1}, RB: 65536, ReadDelay: 7 * time.Second},
+			} {
+				p := base
+				p.Prop, p.UDP, p.MTU, p.Latency, p.NSess, p.Seed = prop, true, 1400, 5*time.Millisecond, 1, int64(600+i)
+				p.CTP, p.STP = "nil", "nil"
+				p.Horizon = 300 * time.Second
+				RunOne(u, p, pats, explore.Bound{}, mon)
 			}
 		}})
 		// long one-way transfers: one end only receives acknowledgements for more than a minute
